@@ -174,6 +174,90 @@ theorem node_component_spec {h : Net} (wf : h.WF) (n : PyId) :
     rw [mem_plainBfs wf hn, (components_classes wf c' hc').2.2.2 n hn' x]
   · simp [hn]
 
+/-! ### shortest paths: the array Dijkstra with the doubly decremented counter -/
+
+/-- the loop stops within the supplied fuel (`|nodes| + 1` iterations) for every source that is a node; a source
+    that is not a node raises (`IDNotFound` from `neighbors`) -/
+theorem sssp_terminates {h : Net} (wf : h.WF) (src : PyId) :
+    (src ∈ h.nodes → ∃ d, sssp h src = .ok d) ∧ (src ∉ h.nodes → sssp h src = .notFound) := by
+  constructor
+  · intro hs; obtain ⟨d, e, _⟩ := sssp_ok wf hs; exact ⟨d, e⟩
+  · intro hs; unfold sssp; simp [hs]
+
+/-- **the returned table is the BFS distance in the clique expansion**: an entry is `k` iff there is a walk of
+    length `k` from the source and none shorter -/
+theorem sssp_spec {h : Net} (wf : h.WF) {src : PyId} {d : PyId → Option Nat} (hd : sssp h src = .ok d)
+    (v : PyId) (k : Nat) : d v = some k ↔ IsDist h src v k := by
+  have hs : src ∈ h.nodes := by
+    by_contra hn; rw [(sssp_terminates wf src).2 hn] at hd; cases hd
+  obtain ⟨d', e, fin⟩ := sssp_ok wf hs
+  rw [hd] at e; cases e
+  exact fin.isDist v k
+
+/-- infinite exactly across components -/
+theorem sssp_inf_iff {h : Net} (wf : h.WF) {src : PyId} {d : PyId → Option Nat} (hd : sssp h src = .ok d)
+    (v : PyId) : d v = none ↔ ¬ Reach h src v := by
+  have hs : src ∈ h.nodes := by
+    by_contra hn; rw [(sssp_terminates wf src).2 hn] at hd; cases hd
+  obtain ⟨d', e, fin⟩ := sssp_ok wf hs
+  rw [hd] at e; cases e
+  exact fin.none_iff v
+
+/-- finite iff source and target lie in the same block of `connected_components` -/
+theorem sssp_finite_iff_same_component {h : Net} (wf : h.WF) {src : PyId} {d : PyId → Option Nat}
+    (hd : sssp h src = .ok d) (v : PyId) :
+    (∃ k, d v = some k) ↔ ∃ c ∈ components h, src ∈ c ∧ v ∈ c := by
+  have hs : src ∈ h.nodes := by
+    by_contra hn; rw [(sssp_terminates wf src).2 hn] at hd; cases hd
+  have hnone := sssp_inf_iff wf hd v
+  constructor
+  · rintro ⟨k, hk⟩
+    have hr : Reach h src v := by
+      by_contra hn; rw [hnone.2 hn] at hk; cases hk
+    obtain ⟨c, hc, hsc⟩ := components_cover wf src hs
+    exact ⟨c, hc, hsc, ((components_classes wf c hc).2.2.2 src hsc v).2 hr⟩
+  · rintro ⟨c, hc, hsc, hvc⟩
+    have hr : Reach h src v := ((components_classes wf c hc).2.2.2 src hsc v).1 hvc
+    cases hv : d v with
+    | none => exact absurd hr (hnone.1 hv)
+    | some k => exact ⟨k, rfl⟩
+
+/-- zero on the diagonal, and only there -/
+theorem sssp_diag {h : Net} (wf : h.WF) {src : PyId} {d : PyId → Option Nat} (hd : sssp h src = .ok d) :
+    d src = some 0 ∧ ∀ v, d v = some 0 → v = src := by
+  have hs : src ∈ h.nodes := by
+    by_contra hn; rw [(sssp_terminates wf src).2 hn] at hd; cases hd
+  obtain ⟨d', e, fin⟩ := sssp_ok wf hs
+  rw [hd] at e; cases e
+  exact ⟨fin.src0, fin.zero⟩
+
+/-- distances of adjacent nodes differ by at most one (and are finite together) -/
+theorem sssp_adjacent {h : Net} (wf : h.WF) {src : PyId} {d : PyId → Option Nat} (hd : sssp h src = .ok d)
+    (u v : PyId) (a : Adj h u v) (ku : Nat) (hu : d u = some ku) :
+    ∃ kv, d v = some kv ∧ kv ≤ ku + 1 ∧ ku ≤ kv + 1 := by
+  have hs : src ∈ h.nodes := by
+    by_contra hn; rw [(sssp_terminates wf src).2 hn] at hd; cases hd
+  obtain ⟨d', e, fin⟩ := sssp_ok wf hs
+  rw [hd] at e; cases e
+  obtain ⟨kv, hv, h1⟩ := fin.lipschitz u v ku a hu
+  obtain ⟨ku', hu', h2⟩ := fin.lipschitz v u kv a.symm hv
+  rw [hu] at hu'; cases hu'
+  exact ⟨kv, hv, h1, h2⟩
+
+/-- the all-pairs table of `shortest_path_length` is symmetric -/
+theorem sssp_symm {h : Net} (wf : h.WF) {s t : PyId} {ds dt : PyId → Option Nat}
+    (hs : sssp h s = .ok ds) (ht : sssp h t = .ok dt) : ds t = dt s := by
+  cases hst : ds t with
+  | some k =>
+    have := ((sssp_spec wf hs t k).1 hst).symm
+    exact ((sssp_spec wf ht s k).2 this).symm
+  | none =>
+    cases hts : dt s with
+    | none => rfl
+    | some k =>
+      have := ((sssp_spec wf ht s k).1 hts).symm
+      rw [(sssp_spec wf hs t k).2 this] at hst; cases hst
+
 /-! ### clustering coefficient -/
 
 /-- `clustering_coefficient(H)[n]` = (#triangles at n)/(k(k−1)/2) in the pairwise projection, 0 for k < 2
@@ -317,5 +401,58 @@ theorem to_dag_ids_and_acyclic (h : Net) (t : SubT) :
     | all => exact (mem_encRaw.1 hm).1.2.2.1
     | immediate => exact (mem_encRaw.1 hm).1.2.2.1
     | empirical => exact (mem_encRaw.1 (mem_encLinks_empirical.1 hm).1).1.2.2.1
+
+/-! ### non-vacuity: concrete non-trivial inputs satisfy the hypotheses and evaluate as expected -/
+
+section Examples
+
+/-- nodes 1..6; edges {1,2,3}, {3,4}, {5}; node 6 isolated: three components, distances up to 2 -/
+def exNet : Net :=
+  { nodes := [.int 1, .int 2, .int 3, .int 4, .int 5, .int 6],
+    edges := [(.int 10, [.int 1, .int 2, .int 3]), (.int 11, [.int 3, .int 4]), (.int 12, [.int 5])] }
+
+/-- the witness of the empirical-filter finding: x = {1,2,3}, y = {1}, z = {2,3}, w = {1,2,4,5} -/
+def exNested : Net :=
+  { nodes := [.int 1, .int 2, .int 3, .int 4, .int 5],
+    edges := [(.int 0, [.int 1, .int 2, .int 3]), (.int 1, [.int 1]), (.int 2, [.int 2, .int 3]),
+              (.int 3, [.int 1, .int 2, .int 4, .int 5])] }
+
+example : exNet.WF := by
+  refine ⟨by decide, by decide, ?_⟩
+  intro p hp
+  simp only [exNet, List.mem_cons, List.not_mem_nil, or_false] at hp
+  rcases hp with rfl | rfl | rfl <;> exact ⟨by decide, by decide⟩
+
+example : components exNet = [[.int 1, .int 2, .int 3, .int 4], [.int 5], [.int 6]] := by decide
+example : numberCC exNet = 3 ∧ isConnected exNet = some false := by decide
+example : largestCC exNet = some [.int 1, .int 2, .int 3, .int 4] := by decide
+example : nodeCC exNet (.int 4) = some [.int 4, .int 3, .int 1, .int 2] ∧ nodeCC exNet (.int 9) = none := by decide
+example : Adj exNet (.int 3) (.int 4) := ⟨by decide, (.int 11, [.int 3, .int 4]), by decide, by decide, by decide⟩
+example : ∃ d, sssp exNet (.int 1) = .ok d ∧
+    ssspTable exNet d = [(.int 1, some 0), (.int 2, some 1), (.int 3, some 1), (.int 4, some 2), (.int 5, none), (.int 6, none)] :=
+  ⟨_, rfl, by decide⟩
+example : projDeg exNet (.int 3) = 3 ∧ triangles exNet (.int 3) = 1 ∧ projDeg exNet (.int 4) = 1 := by decide
+example : clusteringAt exNet (.int 3) = .val (1 / 3) ∧ clusteringAt exNet (.int 4) = .val 0 := by
+  have h1 : projDeg exNet (.int 3) = 3 := by decide
+  have h2 : triangles exNet (.int 3) = 1 := by decide
+  have h3 : projDeg exNet (.int 4) = 1 := by decide
+  rw [clustering_eq, clustering_eq, h1, h2, h3]
+  norm_num
+example : projEdges exNet = [(.int 1, .int 2), (.int 1, .int 3), (.int 2, .int 3), (.int 3, .int 4)] := by decide
+example : lineLinks exNet 1 .absolute = [(.int 10, .int 11, some 1)] ∧ lineLinks exNet 2 .absolute = [] ∧
+    lineLinks exNet 1 .unweighted = [(.int 10, .int 11, none)] := by decide
+example : lineWeight .normalized [.int 1, .int 2, .int 3] [.int 3, .int 4] = some (1 / 2) := by
+  have : (inter [PyId.int 1, .int 2, .int 3] [.int 3, .int 4]).length = 1 := by decide
+  simp only [lineWeight, this]
+  norm_num
+example : bipEdges exNet = [(0, 6), (1, 6), (2, 6), (2, 7), (3, 7), (4, 8)] := by decide
+example : encDag exNested .all = [(.int 0, .int 1), (.int 0, .int 2), (.int 3, .int 1)] := by decide
+example : encDag exNested .immediate = [(.int 0, .int 2)] := by decide
+/-- both orders of the hyperedges give the same empirical DAG in the model (the code as it stands does not) -/
+example : encDag exNested .empirical = [(.int 0, .int 2)] ∧
+    encDag { exNested with edges := [(.int 1, [.int 1]), (.int 0, [.int 1, .int 2, .int 3]), (.int 2, [.int 2, .int 3]),
+      (.int 3, [.int 1, .int 2, .int 4, .int 5])] } .empirical = [(.int 0, .int 2)] := by decide
+
+end Examples
 
 end Xgi.C14
